@@ -287,7 +287,13 @@ func isWaiter(f *ssa.Function) (durIdx int, ok bool) {
 	return -1, false
 }
 
-func c10Init(c *eng.Ctx, init *ssa.Function) {
+func c10Init(c *eng.Ctx, init *ssa.Function) { c10InitIn(c, init, false) }
+
+// c10InitIn: inner is true when init is a helper of the initialisation
+// routine holding one fetch pass (it reports the number of names still
+// missing and the error that ends the whole construction); the retry loop,
+// the waits and the back-off then belong to its caller.
+func c10InitIn(c *eng.Ctx, init *ssa.Function, inner bool) {
 	p := c.P
 	ctxP := ctxParam(init)
 	// fetches and waits
@@ -341,7 +347,7 @@ func c10Init(c *eng.Ctx, init *ssa.Function) {
 	} else {
 		c.Ok("R-C10-2", init, init.Pos(), "cycles of "+init.Name(), "every non-iteration cycle passes a verified waiter")
 	}
-	if len(waits) == 0 {
+	if len(waits) == 0 && !inner {
 		c.Bad("R-C10-2", init, init.Pos(), "wait between rounds", "failed fetches are retried after a pause", "no verified waiter is called")
 	}
 
@@ -393,20 +399,54 @@ func c10Init(c *eng.Ctx, init *ssa.Function) {
 				// s: the ctx ended edge
 				bad, _ := eng.SearchBlock(init, s, nil, nil, func(y ssa.Instruction) bool {
 					if r, isR := y.(*ssa.Return); isR {
-						return nonNilAt(eng.RetVals(r)[0], eng.FactsAt(r)) != eng.Yes
+						return nonNilAt(eng.RetVals(r)[errResultIndex(init)], eng.FactsAt(r)) != eng.Yes
 					}
 					if call, ok := y.(*ssa.Call); ok && isFetchCall(p, call) {
 						return true
 					}
 					return false
 				})
-				if r, isR := s.Instrs[0].(*ssa.Return); isR && nonNilAt(eng.RetVals(r)[0], eng.FactsAt(r)) == eng.Yes {
+				if r, isR := s.Instrs[0].(*ssa.Return); isR && nonNilAt(eng.RetVals(r)[errResultIndex(init)], eng.FactsAt(r)) == eng.Yes {
 					bad = nil
 				}
 				c.Check(bad == nil, "R-C10-3", init, x.Pos(), "context-ended edge of "+eng.InstrStr(x), "returns a non-nil error without further fetches", "")
 			}
 		})
 
+		// a fetch pass moved into a helper: the per-name rules are decided there;
+		// here success must still mean "the pass left nothing missing"
+		if !isStoreClientInvoke(&fetch.Call) {
+			h := eng.Callee(&fetch.Call)
+			if inner || h == nil {
+				c.Undecided("R-C10-5", init, fetch.Pos(), eng.CallStr(&fetch.Call), "fetch through more than one level of helpers")
+				continue
+			}
+			c10InitIn(c, h, true)
+			var count ssa.Value
+			if refs := fetch.Referrers(); refs != nil {
+				for _, rf := range *refs {
+					if ex, ok := rf.(*ssa.Extract); ok && isIntType(ex.Type()) {
+						count = ex
+					}
+				}
+			}
+			for _, r := range eng.Returns(init) {
+				rv := eng.RetVals(r)
+				if !eng.IsNilConst(eng.Origin(rv[errResultIndex(init)])) {
+					continue
+				}
+				okk := false
+				for _, cond := range eng.FactsAt(r) {
+					if op, x, y, isCmp := cond.Cmp(); isCmp && op == token.EQL && count != nil {
+						if k, isK := eng.ConstInt(y); isK && k == 0 && eng.Origin(x) == count {
+							okk = true
+						}
+					}
+				}
+				c.Check(okk, "R-C10-5", init, r.Pos(), eng.InstrStr(r), "success is reported only when the fetch pass left no declared secret missing (its count == 0)", "holding: "+eng.FactsString(r))
+			}
+			continue
+		}
 		// R-C10-5: only fetch missing names
 		var loop *mapLoop
 		for _, ml := range mapLoops(init) {
@@ -489,10 +529,20 @@ func c10Init(c *eng.Ctx, init *ssa.Function) {
 		// return nil only under counter == 0
 		for _, r := range eng.Returns(init) {
 			rv := eng.RetVals(r)
-			if !eng.IsNilConst(eng.Origin(rv[0])) {
+			if !eng.IsNilConst(eng.Origin(rv[errResultIndex(init)])) {
 				continue
 			}
 			okk := false
+			if inner {
+				// the pass reports its count to the retry loop: after the loop, the counter itself
+				for i, v := range rv {
+					if i != errResultIndex(init) && isIntType(v.Type()) && eng.Origin(v) == ssa.Value(counter) && !loop.Body.Dominates(r.Block()) {
+						okk = true
+					}
+				}
+				c.Check(okk, "R-C10-5", init, r.Pos(), eng.InstrStr(r), "a pass that ends without error reports the number of names still missing (counted over the whole set)", "returns "+eng.InstrStr(r))
+				continue
+			}
 			for _, cond := range eng.FactsAt(r) {
 				if op, x, y, isCmp := cond.Cmp(); isCmp && op == token.EQL {
 					if k, isK := eng.ConstInt(y); isK && k == 0 && x == ssa.Value(counter) {
@@ -558,6 +608,9 @@ func c10Init(c *eng.Ctx, init *ssa.Function) {
 		}
 	}
 
+	if inner {
+		return
+	}
 	// R-C10-6 FileClient short-circuit
 	var isFC ssa.Value
 	eng.Instrs(init, func(in ssa.Instruction) {
